@@ -17,6 +17,12 @@
 //	CL<i>:<qc>             client i, still connected since its last CC, after further writes -> ev=...|last=...
 //	L:<0|1>                leader change to a fresh node replaying the log, notifications enabled or not in the new term
 //	X:<now>:<retention>    one trimming round on the current leader's store -> trimmed | nothing | err
+//	XW:<now>:<retention>:<offset>:<ts>:<puts>:<dels>:<ranges>
+//	                       the same round while the shard has been idle for longer than the retention (everything stored has
+//	                       expired), and the request commits through lc.Write WHILE the round runs: exactly when the trimmer,
+//	                       having taken first/last and read its timestamps, creates its write batch (kv.KV wrapper firing on
+//	                       NewWriteBatch)   -> <trimmed|nothing|err>|<W result>;  then GN:<offset-1>: a subscriber that saw
+//	                       everything below the request must receive its batch
 //
 // SPEC VERDICTS (independent of the model: the reference of req.go and direct reads of the store)
 //
@@ -27,6 +33,8 @@
 //	                                  application are not those of exactly these batches
 //	notif:delivered-above-commit      a batch above the leader's commit offset went down a stream
 //	notif:trimmed-within-retention    a round removed a batch younger than now-retention, or not a prefix
+//	notif:unexpired-batch-trimmed     the batch of a request committed while a trimming round was running (timestamp >= the
+//	                                  round's clock reading) is gone after the round / not delivered to a resuming subscriber
 //
 // -mode uncommitted: rf = 2 with an in-process follower whose acknowledgements the harness holds back: nothing may be
 // stored or delivered for an entry that is appended but not committed (verdict notif:delivered-above-commit); then the
@@ -114,7 +122,9 @@ func (w *world) storedOffsets() (offs []int64, byOff map[int64]*proto.Notificati
 }
 
 // checkStored compares the stored batch of one offset with the reference.
-func (w *world) checkStored(off int64, ctx string) {
+func (w *world) checkStored(off int64, ctx string) { w.checkStoredSig(off, ctx, "notif:batch-missing") }
+
+func (w *world) checkStoredSig(off int64, ctx string, missingSig string) {
 	_, byOff := w.storedOffsets()
 	b, ok := byOff[off]
 	if !w.enabled {
@@ -124,7 +134,7 @@ func (w *world) checkStored(off int64, ctx string) {
 		return
 	}
 	if !ok {
-		w.viol("notif:batch-missing", "%s: no batch stored under offset %d", ctx, off)
+		w.viol(missingSig, "%s: no batch stored under offset %d", ctx, off)
 		return
 	}
 	got := notifsS(b.Notifications)
@@ -140,7 +150,8 @@ func (w *world) checkStored(off int64, ctx string) {
 
 // ---------------------------------------------------------------- steps
 
-func (w *world) write(req *wreq) {
+// applyWrite hands the request to the leader, waits until it is applied and brings the reference up to date.
+func (w *world) applyWrite(req *wreq) string {
 	resp, err := w.leader.write(req.toProto())
 	if err != nil {
 		panic(fmt.Sprintf("leader write failed: %v (%s)", err, req.String()))
@@ -158,9 +169,14 @@ func (w *world) write(req *wreq) {
 			w.vers[req.puts[i].key] = p.Version.VersionId
 		}
 	}
-	w.record(req.String(), respS(resp))
 	w.o.Count("write")
-	w.checkStored(off, "request "+req.String())
+	return respS(resp)
+}
+
+func (w *world) write(req *wreq) {
+	res := w.applyWrite(req)
+	w.record(req.String(), res)
+	w.checkStored(req.offset, "request "+req.String())
 }
 
 func p64(v int64) *int64 { return &v }
@@ -548,15 +564,18 @@ func b2i(b bool) int {
 	return 0
 }
 
+func (w *world) leaderStore() kv.KV {
+	w.leader.kvf.mu.Lock()
+	defer w.leader.kvf.mu.Unlock()
+	return w.leader.kvf.store
+}
+
 func (w *world) trim(now, ret int64) {
 	w.closeOpenStreams()
 	before, byOff := w.storedOffsets()
-	w.leader.kvf.mu.Lock()
-	store := w.leader.kvf.store
-	w.leader.kvf.mu.Unlock()
 	clk := &oxtime.MockedClock{}
 	clk.Set(now)
-	err := kv.VerifTrimNotifications(store, time.Duration(ret)*time.Millisecond, clk)
+	err := kv.VerifTrimNotifications(w.leaderStore(), time.Duration(ret)*time.Millisecond, clk)
 	after, _ := w.storedOffsets()
 	res := "nothing"
 	if err != nil {
@@ -566,13 +585,18 @@ func (w *world) trim(now, ret int64) {
 	}
 	w.record(fmt.Sprintf("X:%d:%d", now, ret), res)
 	w.o.Count("trim:" + res)
+	w.judgeTrim(before, after, byOff, now, ret, -1)
+}
+
+// judgeTrim: what a round may remove. [written] = offset of a request applied during the round (-1: none).
+func (w *world) judgeTrim(before, after []int64, byOff map[int64]*proto.NotificationBatch, now, ret, written int64) {
 	kept := map[int64]bool{}
+	minKept := int64(-1)
 	for _, o := range after {
 		kept[o] = true
-	}
-	minKept := int64(-1)
-	if len(after) > 0 {
-		minKept = after[0]
+		if minKept < 0 && o != written {
+			minKept = o
+		}
 	}
 	for _, o := range before {
 		if kept[o] {
@@ -585,6 +609,71 @@ func (w *world) trim(now, ret int64) {
 		if int64(byOff[o].Timestamp) > now-ret {
 			w.viol("notif:trimmed-within-retention", "trim now=%d retention=%d removed offset %d with timestamp %d", now, ret, o, byOff[o].Timestamp)
 			return
+		}
+	}
+}
+
+// gateKV fires once, when the trimmer creates its write batch (all its reads are done, nothing is written yet).
+type gateKV struct {
+	kv.KV
+	fire  func()
+	fired bool
+}
+
+func (g *gateKV) NewWriteBatch() kv.WriteBatch {
+	if !g.fired {
+		g.fired = true
+		g.fire()
+	}
+	return g.KV.NewWriteBatch()
+}
+
+// trimWithWrite: the shard has been idle for longer than the retention; a request commits while the round runs.
+func (w *world) trimWithWrite(ret int64, req *wreq) {
+	w.closeOpenStreams()
+	time.Sleep(2 * time.Millisecond) // every stored timestamp is now at least one millisecond old
+	now := time.Now().UnixMilli()
+	before, byOff := w.storedOffsets()
+	var wres string
+	inside := false
+	gate := &gateKV{KV: w.leaderStore(), fire: func() { wres = w.applyWrite(req); inside = true }}
+	clk := &oxtime.MockedClock{}
+	clk.Set(now)
+	err := kv.VerifTrimNotifications(gate, time.Duration(ret)*time.Millisecond, clk)
+	if !gate.fired {
+		wres = w.applyWrite(req)
+	}
+	after, _ := w.storedOffsets()
+	xres := "nothing"
+	if err != nil {
+		xres = "err"
+	} else {
+		k := map[int64]bool{}
+		for _, o := range after {
+			k[o] = true
+		}
+		for _, o := range before {
+			if !k[o] {
+				xres = "trimmed"
+			}
+		}
+	}
+	op := fmt.Sprintf("XW:%d:%d:%s", now, ret, req.String()[2:])
+	w.record(op, xres+"|"+wres)
+	w.o.Count("trim-with-write:" + xres)
+	if inside {
+		w.o.Count("write-landed-inside-round")
+	}
+	w.judgeTrim(before, after, byOff, now, ret, req.offset)
+	sig := "notif:batch-missing"
+	if inside && int64(req.ts) > now-ret {
+		sig = "notif:unexpired-batch-trimmed"
+	}
+	w.checkStoredSig(req.offset, op, sig)
+	if w.enabled {
+		w.rawStream(p64(req.offset - 1))
+		if got := w.res[len(w.res)-1]; !strings.HasPrefix(got, fmt.Sprintf("%d/%d/", w.shard, req.offset)) {
+			w.viol(sig, "%s: a subscriber resuming at %d receives %s, not the batch of offset %d (timestamp %d)", op, req.offset-1, got, req.offset, req.ts)
 		}
 	}
 }
@@ -621,6 +710,23 @@ func scriptEmptyShardReconnect(w *world) {
 	w.o.Count("scenario:empty-shard-reconnect")
 }
 
+// a subscriber whose successors were all trimmed (the dispatch loop finds lastOffset ahead of an empty range) stays
+// connected while requests commit one by one: it must receive every one of their batches
+func scriptBehindTrimThenWrites(w *world) {
+	w.clientConnect(0, 1, false) // initialised on the empty shard: position -1
+	for i := 0; i < 4; i++ {
+		w.write(&wreq{puts: []putOp{{key: fmt.Sprintf("t%d", i), value: []byte("v")}}})
+	}
+	time.Sleep(2 * time.Millisecond)
+	w.trim(time.Now().UnixMilli(), 1) // everything stored has expired
+	w.clientConnect(0, allBatches, true)
+	for i := 0; i < 40; i++ {
+		w.write(&wreq{puts: []putOp{{key: fmt.Sprintf("n%d", i%5), value: []byte("v")}}})
+	}
+	w.clientContinue(0)
+	w.o.Count("scenario:behind-trim-then-writes")
+}
+
 func scriptRandom(w *world) {
 	rng := w.rng
 	steps := 10 + rng.Intn(18)
@@ -645,13 +751,15 @@ func scriptRandom(w *world) {
 			}
 			k := hx.Pick(rng, []int{0, 1, 1, 2, 3, allBatches, allBatches, allBatches})
 			w.clientConnect(i, k, k == allBatches && rng.Chance(50))
-		case x < 86:
+		case x < 84:
 			en := w.enabled
 			if rng.Chance(20) {
 				en = !en
 			}
 			w.leaderChange(en)
-		case x < 96:
+		case x < 90:
+			w.trimWithWrite(int64(hx.Pick(rng, []int{1, 5, 1000})), w.genRequest())
+		case x < 97:
 			offs, byOff := w.storedOffsets()
 			if len(offs) == 0 {
 				break
@@ -676,6 +784,9 @@ func scriptRandom(w *world) {
 
 func genCases(o *hx.Out, rng *hx.Rng, n int) {
 	runScenario(o, rng.Fork(), "empty-shard-reconnect", scriptEmptyShardReconnect)
+	for i := 0; i < 3; i++ {
+		runScenario(o, rng.Fork(), fmt.Sprintf("behind-trim-then-writes#%d", i), scriptBehindTrimThenWrites)
+	}
 	for c := 0; c < n; c++ {
 		runScenario(o, rng.Fork(), fmt.Sprintf("notif#%d", c), scriptRandom)
 	}
